@@ -112,6 +112,12 @@ def build(kind: str, dest: Path) -> None:
         elif kind == "hoist":
             from icgsa.mutate import hoist_call_arguments
             hoist_call_arguments(tree)
+        elif kind == "flipcmp":
+            from icgsa.mutate import flip_comparisons
+            flip_comparisons(tree)
+        elif kind == "swapif":
+            from icgsa.mutate import swap_branches
+            swap_branches(tree)
         elif kind == "noannot":
             strip_annotations(tree)
         elif kind == "reorder":
@@ -122,7 +128,7 @@ def build(kind: str, dest: Path) -> None:
 def main() -> int:
     kinds = sys.argv[1:] or ["all"]
     if kinds == ["all"]:
-        kinds = ["reformat", "rename", "asserts", "reorder", "hoist"]
+        kinds = ["reformat", "rename", "asserts", "reorder", "hoist", "noannot"]
     props = [json.loads(l)["id"] for l in (VERIF / "properties.jsonl").read_text().splitlines() if l.strip()]
     bad = 0
     for kind in kinds:
